@@ -151,9 +151,23 @@ pub enum ErrKind {
     ConnectionReset,
     BrokenPipe,
     InvalidData,
+    ConnectionAborted,
+    NotConnected,
+    PermissionDenied,
+    Unsupported,
+    OutOfMemory,
+    NotFound,
+    InvalidInput,
+    WriteZero,
+    /// raw OS errors, as a real file / socket / pipe produces them
+    OsEio,
+    OsEnospc,
+    OsEagain,
+    OsEintr,
+    OsEpipe,
 }
 
-pub const ERR_KINDS: [ErrKind; 8] = [
+pub const ERR_KINDS: [ErrKind; 21] = [
     ErrKind::Other,
     ErrKind::Interrupted,
     ErrKind::WouldBlock,
@@ -162,11 +176,38 @@ pub const ERR_KINDS: [ErrKind; 8] = [
     ErrKind::ConnectionReset,
     ErrKind::BrokenPipe,
     ErrKind::InvalidData,
+    ErrKind::ConnectionAborted,
+    ErrKind::NotConnected,
+    ErrKind::PermissionDenied,
+    ErrKind::Unsupported,
+    ErrKind::OutOfMemory,
+    ErrKind::NotFound,
+    ErrKind::InvalidInput,
+    ErrKind::WriteZero,
+    ErrKind::OsEio,
+    ErrKind::OsEnospc,
+    ErrKind::OsEagain,
+    ErrKind::OsEintr,
+    ErrKind::OsEpipe,
 ];
 
 impl ErrKind {
+    pub fn raw_os(self) -> Option<i32> {
+        match self {
+            ErrKind::OsEio => Some(5),
+            ErrKind::OsEnospc => Some(28),
+            ErrKind::OsEagain => Some(11),
+            ErrKind::OsEintr => Some(4),
+            ErrKind::OsEpipe => Some(32),
+            _ => None,
+        }
+    }
+    /// The `io::ErrorKind` a caller observes for this injected error.
     pub fn to_io(self) -> std::io::ErrorKind {
         use std::io::ErrorKind as K;
+        if let Some(n) = self.raw_os() {
+            return std::io::Error::from_raw_os_error(n).kind();
+        }
         match self {
             ErrKind::Other => K::Other,
             ErrKind::Interrupted => K::Interrupted,
@@ -176,7 +217,26 @@ impl ErrKind {
             ErrKind::ConnectionReset => K::ConnectionReset,
             ErrKind::BrokenPipe => K::BrokenPipe,
             ErrKind::InvalidData => K::InvalidData,
+            ErrKind::ConnectionAborted => K::ConnectionAborted,
+            ErrKind::NotConnected => K::NotConnected,
+            ErrKind::PermissionDenied => K::PermissionDenied,
+            ErrKind::Unsupported => K::Unsupported,
+            ErrKind::OutOfMemory => K::OutOfMemory,
+            ErrKind::NotFound => K::NotFound,
+            ErrKind::InvalidInput => K::InvalidInput,
+            ErrKind::WriteZero => K::WriteZero,
+            _ => K::Other,
         }
+    }
+    /// Build the error the seam returns.
+    pub fn make(self, msg: &str) -> std::io::Error {
+        match self.raw_os() {
+            Some(n) => std::io::Error::from_raw_os_error(n),
+            None => std::io::Error::new(self.to_io(), msg.to_string()),
+        }
+    }
+    pub fn is_interrupted(self) -> bool {
+        self.to_io() == std::io::ErrorKind::Interrupted
     }
     pub fn idx(self) -> usize {
         ERR_KINDS.iter().position(|k| *k == self).unwrap()
